@@ -340,7 +340,9 @@ func (s *muxerStream) handleMediaPlaylist(w http.ResponseWriter, r *http.Request
 						break
 					}
 
+					verifPoint("wait.park", s.mutex, r)
 					s.cond.Wait()
+					verifPoint("wait.wake", s.mutex, r)
 				}
 
 				byts, err := s.generateMediaPlaylist(
@@ -383,7 +385,9 @@ func (s *muxerStream) handleMediaPlaylist(w http.ResponseWriter, r *http.Request
 				break
 			}
 
+			verifPoint("wait.park", s.mutex, r)
 			s.cond.Wait()
+			verifPoint("wait.wake", s.mutex, r)
 		}
 
 		byts, err := s.generateMediaPlaylist(
@@ -706,7 +710,9 @@ func (s *muxerStream) rotateParts(
 						break
 					}
 
+					verifPoint("wait.park", s.mutex, r)
 					s.cond.Wait()
+					verifPoint("wait.wake", s.mutex, r)
 				}
 
 				h := s.server.getPathHandler(partPath)
